@@ -323,8 +323,10 @@ Definition norm_entry (sid : N) (e : entry) : entry :=
 
 (* SyncEntry.is_trash *)
 Definition is_trash (e : entry) : bool := is_nil (s_oid (e_s0 e)) && is_nil (s_oid (e_s1 e)).
-(* the entry belongs to the change set after a load: ent[side].changed truthy on a side *)
-Definition pending (e : entry) : bool := truthy (s_changed (e_s0 e)) || truthy (s_changed (e_s1 e)).
+(* the entry belongs to the change set after a load: a side that HAS an oid carries a truthy change stamp
+   (SyncState.__init__ since fix 40cad60 skips sides without an oid, as the live index does) *)
+Definition pending_side (s : side) : bool := negb (is_nil (s_oid s)) && truthy (s_changed s).
+Definition pending (e : entry) : bool := pending_side (e_s0 e) || pending_side (e_s1 e).
 
 (* ---------------------------------------------------------------- the row store *)
 Inductive policy := PSqlite | PMock.
